@@ -848,8 +848,34 @@ std::unique_ptr<World> makeWorld(uint32_t cacheSize, uint32_t maxLog = 10 * 1024
   return w;
 }
 
+// Debug aid: C12_SCRIPT="3,9,12" makes the history take these alphabet indices instead of asking the explorer
+// (use with --replay of an empty choice list, e.g. a case file "scenario=hist;tier=quick;choices=").
+int scriptedChoice(int n)
+{
+  static std::vector<int> script;
+  static size_t pos = 0;
+  static bool init = false;
+  if (!init)
+  {
+    init = true;
+    if (const char *e = getenv("C12_SCRIPT"))
+    {
+      std::stringstream ss(e);
+      std::string tok;
+      while (std::getline(ss, tok, ','))
+        script.push_back(atoi(tok.c_str()));
+    }
+  }
+  if (pos < script.size())
+    return std::min(script[pos++], n - 1);
+  return -1;
+}
+
 int chooseN(int n)
 {
+  int sc = scriptedChoice(n);
+  if (sc >= 0)
+    return sc;
   // the recorder caps a choice point at 20 options: split larger alphabets into two nested free choices
   if (n <= 16)
     return mc_choose(n, MC_FREE);
@@ -1355,7 +1381,22 @@ int main(int argc, char **argv)
     std::string e = n > 0 ? std::string(exe, size_t(n)) : std::string();
     size_t k = e.rfind("/build/bin/");
     std::string buildDir = k != std::string::npos ? e.substr(0, k) + "/build" : std::string("/verif/build");
-    g_scratchBase = buildDir + "/scratch/C12/" + std::to_string(getpid());
+    const std::string root = buildDir + "/scratch/C12";
+    g_scratchBase = root + "/" + std::to_string(getpid());
+    // remove what an earlier, killed run left behind (directories named after process ids that no longer exist)
+    if (DIR *d = opendir(root.c_str()))
+    {
+      std::vector<std::string> stale;
+      while (dirent *e = readdir(d))
+      {
+        long pid = atol(e->d_name);
+        if (pid > 0 && kill(pid_t(pid), 0) != 0 && errno == ESRCH)
+          stale.push_back(root + "/" + e->d_name);
+      }
+      closedir(d);
+      for (auto &p : stale)
+        rmTree(p);
+    }
     mkdirP(g_scratchBase);
   }
   auto envInt = [](const char *n, int d)
